@@ -177,13 +177,21 @@ def evaluate(case, res):
     extra = ''
     starts = {}
     for e in res.recorder.events:
-        if e.op == 'insert' and e.committed and e.table == trace.ACT and \
+        if e.op == 'insert' and e.committed and \
+                e.table in (trace.ACT, trace.WF) and \
+                e.vals.get('task_execution_id') and \
                 e.task.startswith('rpc:start_task'):
             key = (e.vals.get('task_execution_id'),
                    (e.vals.get('runtime_context') or {}).get('index'))
             starts.setdefault(key, set()).add(e.task)
     if any(len(v) > 1 for v in starts.values()):
         extra = ' double_start_after_resume'
+    # a resume request that failed (and was rolled back) because the
+    # commands of a task completed during the pause could not be processed
+    for step, mlabel, node, e, tb in res.extra.get('handler_exc', []):
+        if 'resume_workflow' in mlabel:
+            extra += ' resume_rolled_back'
+            break
     # a task force-failed (structural error) while its execution was PAUSED
     paused_now = set()
     for cno, step, actor, changes in hist.iterate():
